@@ -140,7 +140,7 @@ pub fn run(ctx: &Ctx) -> i32 {
     if let Some(p) = &ctx.replay {
         return check::replay_unit_panic(ctx, p);
     }
-    let n = ctx.scale(30000, 1000000);
+    let n = ctx.scale(60000, 1000000);
     let trees = check::draw(ctx.seed, 0xC17, n, 520);
     let dnas: Vec<Vec<u16>> = trees.iter().map(|t| t.current()).collect();
     drop(trees);
